@@ -140,6 +140,7 @@ impl Prop for C16 {
                 cfg_mode: if thorough { CfgMode::Dev1All } else { CfgMode::Dev1Relevant },
                 cfg_ctx_limit: if thorough { 99 } else { 2 },
                 l1: thorough,
+                dev_editions: if thorough { vec![] } else { vec![2024] },
             },
             None,
         );
